@@ -186,6 +186,12 @@ class Driver:
             wl.append(self.safe(self.words, g, dt, x, tag, prec, wdt,
                                 lambda d, v: u.float2expansion(d, v), u.expansion2mpf, True, via_mpf=False))
 
+        def f2epy(tag, wdt, prec):
+            # the same value handed over as a plain Python float (number2expansion dispatches on the type; NumPy's
+            # promotion treats a Python float as "weak", so arithmetic with it can happen in the narrow dtype)
+            wl.append(self.safe(self.words, g, dt, x, tag, prec, wdt,
+                                lambda d, v: u.number2expansion(d, float(v)), u.expansion2mpf, True, via_mpf=False))
+
         half = (tp + 1) // 2
         small = max(2, tp // 4)
         extras = [
@@ -200,6 +206,7 @@ class Driver:
             # float2expansion has no treatment of inf/nan at all (it would not return); the
             # statement's "where the format can express them" is not pressed on it
             extras.append(lambda: f2e("f2e/same", dt, tp))
+            extras.append(lambda: f2epy("f2epy/same", dt, tp))
             if x != 0:
                 extras.append(lambda: mw("mwsmallp/quarter", tp, p=small))
             for wn in NARROWER[name]:
@@ -209,6 +216,7 @@ class Driver:
                     continue
                 extras.append(lambda wn=wn: ex("exnarrow/" + wn, bits.FLOAT[wn], tp))
                 extras.append(lambda wn=wn: f2e("f2enarrow/" + wn, bits.FLOAT[wn], tp))
+                extras.append(lambda wn=wn: f2epy("f2epynarrow/" + wn, bits.FLOAT[wn], tp))
         fb = tp - 1
         canonical_nan = (pattern & ((1 << (bits.WIDTH[name] - 1)) - 1)) == (((1 << EBITS[name]) - 1) << fb) | (1 << (fb - 1))
         if finite or numpy.isinf(x) or canonical_nan:
